@@ -51,9 +51,12 @@ func DecodeMetadata(input any, result any) error {
 	// if input is of type struct, cast it to metadata.Base and access the Properties instead
 	v := reflect.ValueOf(input)
 	if v.Kind() == reflect.Struct {
-		f := v.FieldByName("Properties")
-		if f.IsValid() && f.Kind() == reflect.Map {
-			input = f.Interface().(map[string]string)
+		// Look up the field through its index path, so a field promoted through a nil embedded pointer is skipped and does not cause a panic
+		// Maps of other types are left to cast.ToStringMapStringE, which reports an error if it cannot convert them
+		if sf, ok := v.Type().FieldByName("Properties"); ok {
+			if f, err := v.FieldByIndexErr(sf.Index); err == nil && f.Kind() == reflect.Map {
+				input = f.Interface()
+			}
 		}
 	}
 
